@@ -6,7 +6,14 @@ from hypothesis import strategies as st
 
 from pbt import exact
 
-SPACINGS = ["0.1", "0.05", "0.025", "0.2", "0.25", "0.5", "1", "2", "0.125", "0.15", "0.3", "0.01"]
+SPACINGS = ["0.1", "0.05", "0.025", "0.2", "0.25", "0.5", "1", "2", "0.125", "0.15", "0.3", "0.01",
+            # spacings that are not short decimals (1/12, 1/3, 1/60, 1/7 of a degree) - given as the decimal expansion of the double
+            "0.08333333333333333", "0.3333333333333333", "0.016666666666666666", "0.14285714285714285"]
+
+
+def short_decimal(case):
+    """True if the lattice spacing is a decimal number with few digits (every spacing CSEP grids use)"""
+    return len(case["dh"].replace("0.", "").lstrip("0")) <= 6
 
 
 def dec(i, d):
